@@ -43,15 +43,33 @@ CHECK = {
            'its own storage (current(Thread) as key/value store) before touching it - a key may be there only if an earlier run of the same Thread object left it, with that value; a fresh Thread object '
            'holds nothing, whatever was created, run, joined or deleted before - then sets keys to values of its own and reads them back before and after a scheduling point; the main thread '
            'keeps a value under one of the same key names and never sees the keys only workers set. '
+           'lazy-*: the lazily created thread-local (get; on KeyError create the object and set it) with a per-thread accumulator, while the main thread keeps an accumulator of its own under the same key: '
+           'the first get of every worker raises KeyError (it never receives the main thread\'s object, whatever mem says), every worker ends with its own sum as when it runs alone, the main thread\'s value is untouched; '
+           'the tlshist runs also call get on every key mem reports absent, among them the key the main thread holds. '
+           'handover-*: the main thread makes objects with a counting destructor and keeps them on its stack, a child reads them and calls del() on every other one (or only reads: del=0) while the main thread allocates and collects, '
+           'then the main thread joins, reads them and deletes them: each is finalised exactly once, by the main thread, and not before it lets go (the child\'s del of an object its own collector does not track does nothing). '
+           'dispatch-*: every worker works on objects only it knows, all of one type of its own (I Int, S String, F Float, P plain struct without class instances, U user type with its own Cmp/Hash/Assign/Len/C_Int) and calls '
+           'cmp/eq/lt/ge/hash/len/c_int/c_float/c_str/assign/cast/copy/del in rounds over an 8x8 value grid per kind; every answer is compared with the value computed in C and the digest with the same workload run before any thread exists. '
+           'Under the scheduler the points are the reads and fills of the type cache entries, the class memo of Type_Scan and the lazy header fill of type_of (the points that exist inside a lookup); a lookup memo kept in statics that are '
+           'read and written between two such points cannot be split by any schedule, so the free-running instances (tsan-dispatch-<kinds>, 2 to 5 workers, different kinds and the same kind) carry that part: they run without the suppression file, '
+           'the value checks judge every answer, and a ThreadSanitizer report inside src/Type.c counts when the memory raced on is a named global (a file- or function-level static) rather than a type object '
+           '(an anonymous compound literal, whose cache words every thread fills lazily with the same value) or a heap block. '
+           'A free-running execution that ends before its scenario does (signal, sanitizer-reported fault, uncaught exception) is a violation; when the log of that very execution shows the collector-marks-table-while-owner-mutates-it race it is reported under that label. '
            'states = distinct observed outcomes, transitions = choice points executed, traces = schedules; distinct_nontrivial = schedules with at least one preemption'),
   'bounds': {
     'quick': '2 threads; preemption bound 2 for the mutex / join / thread-local / exception scenarios, bound 1 for the allocation-heavy and container scenarios and for parent-collects-while-child-runs; '
              'lockmix: 2 threads, thread 1 one or two sections, thread 2 one section, all 36 program pairs over {L,T,W} (three instances, split by the first section of thread 1), bound 2; '
-             'tlshist: all 63 histories of 4..7 steps over two Thread slots, bound 1 (Thread objects made with new_raw/del_raw) and bound 1 with collector-managed Thread objects (new/del)',
+             'tlshist: all 63 histories of 4..7 steps over two Thread slots, bound 1 (Thread objects made with new_raw/del_raw) and bound 1 with collector-managed Thread objects (new/del); '
+             'lazy: 2 workers x 3 accumulations, bound 2; handover: 6 objects, the child deletes 3, bound 2; dispatch: 2 workers (Int, String) x 2 rounds, bound 1 (850 schedules of up to 429 points); '
+             'free-running dispatch: kinds IS, ISP, FUI, III, 3000 rounds per worker, 3 executions each; free-running lazy and handover 5 executions each',
     'thorough': '2 threads bound 3 (mutex, join, abandoned mutex), bound 2 everywhere else (formatting bound 2 under a deadline of 10 min: the evidence says whether it completed; bound 1 always completes); '
                 '3 threads bound 2 (mutex) / bound 1 (workloads); abandoned mutex with 3 trying threads: 3 attempts each bound 0 (every order of the yields), 2 attempts bound 1, 1 attempt bound 2; '
                 'lockmix: 2 threads with up to two sections each (144 program pairs) bound 2, two+one sections bound 3, three+one sections bound 2, 3 threads with 2+1+1 sections (108 program triples) bound 2; '
-                'tlshist: histories of 4..9 steps bound 1 (595 histories), 4..7 steps bound 2, collector-managed Thread objects 4..8 steps bound 1',
+                'tlshist: histories of 4..9 steps bound 1 (595 histories), 4..7 steps bound 2, collector-managed Thread objects 4..8 steps bound 1; '
+                'lazy: 2 workers bound 3, 3 workers bound 2 (13 318 schedules; deadline 5 min); handover: bound 3 with and without the child\'s del; '
+                'dispatch under the scheduler: bound 1 for the kind pairs IS, PU, FS (3 rounds), II (2 rounds) and the triple ISP (2 rounds, 10 914 schedules of up to 684 points; deadline 5 min) - bound 2 is out of reach '
+                '(one round per worker: 26 960 schedules in 100 s without ending); free-running dispatch: kinds IS, ISP, FUI, PSU, III, SSS, PP with 20 000 rounds and ISFPU with 10 000 rounds per worker, 5 executions each; '
+                'free-running lazy (3 workers) and handover 10 executions each',
   },
   'assumptions': [
     'sequential consistency between scheduling points; between two points a thread runs deterministically',
